@@ -85,6 +85,20 @@ CloneCall(c, d) ==
                     [NoOutcome(cs[c]) EXCEPT !.hashmax = 2 + Len(cs[c].ord), !.rebuilt = TRUE],
                     d, CloneOf(cs[c]))
 
+(* d.clone_from(&c): d becomes what c.clone() would be; everything d held is dropped. *)
+(* Objects of the other cache are named <<"XK" / "XV", k * 100 + d>> in the call's   *)
+(* frame of reference (the source cache c).                                         *)
+OtherObjs(d, o) == UNION {{<<"XK", o[i].k * 100 + d>>, <<"XV", o[i].k * 100 + d>>} : i \in DOMAIN o}
+
+CloneFromCall(c, d) ==
+    /\ "clone_from" \in Ops /\ cs[c].alive /\ cs[d].alive /\ c # d
+    /\ cs'  = [cs EXCEPT ![d] = CloneOf(cs[c])]
+    /\ gh'  = [gh EXCEPT ![d] = gh[c]]
+    /\ obs' = MkObs(c, NoArg("clone_from"),
+                    [NoOutcome(cs[c]) EXCEPT !.hashmax = 2 + Len(cs[c].ord), !.rebuilt = TRUE,
+                                             !.dropped = OtherObjs(d, cs[d].ord)],
+                    d, CloneOf(cs[c]))
+
 (* drop(c) *)
 DropCall(c) ==
     /\ "drop" \in Ops /\ cs[c].alive
@@ -103,7 +117,7 @@ NewCall ==
                           [NoOutcome(NewCache(m, ic)) EXCEPT !.ret = RInt(ic)], 0, Dead)
 
 Next == \/ \E c \in CacheIds : Call(c) \/ DropCall(c)
-        \/ \E c, d \in CacheIds : CloneCall(c, d)
+        \/ \E c, d \in CacheIds : CloneCall(c, d) \/ CloneFromCall(c, d)
         \/ NewCall
 
 Spec == Init /\ [][Next]_vars
@@ -121,14 +135,14 @@ Inv ==
         /\ C13_CapSane(cs[c])
         /\ C13_GrowthBound(cs[c], gh[c])
 
-IsCall == obs'.a.op \notin {"new", "drop", "clone"}
+IsCall == obs'.a.op \notin {"new", "drop", "clone", "clone_from"}
 
 (* every transition satisfies every declarative step property *)
 StepOK ==
     /\ IsCall => /\ StepProps(cs[obs'.c], obs'.a, obs'.x)
                  /\ C13_Virgin(cs[obs'.c], obs'.a, obs'.x, gh[obs'.c])
                  /\ \A d \in CacheIds \ {obs'.c} : cs'[d] = cs[d]        \* C14: frame
-    /\ (obs'.a.op = "clone") => /\ C14_Clone(cs[obs'.c], cs'[obs'.d])
+    /\ (obs'.a.op \in {"clone", "clone_from"}) => /\ C14_Clone(cs[obs'.c], cs'[obs'.d])
                                 /\ cs'[obs'.c] = cs[obs'.c]
                                 /\ \A e \in CacheIds \ {obs'.d} : cs'[e] = cs[e]
     /\ (obs'.a.op = "drop") => \A d \in CacheIds \ {obs'.c} : cs'[d] = cs[d]
